@@ -34,6 +34,7 @@ func Run(tier string, seed int64, outDir string) *common.Meta {
 	}
 	runExprClaims(meta, seed, outDir, nExpr)
 	runCaseOrder(meta, seed, outDir, nSw)
+	runNilValReturn(meta, seed, outDir)
 	meta.Rule = "distinct_nontrivial = number of distinct generated expressions / type switches on which at least one of the claim-producing checkers fired (each compared with the model matcher in Coq and executed with instrumentation)"
 	return meta
 }
@@ -720,4 +721,141 @@ func runCaseOrder(meta *common.Meta, seed int64, outDir string, n int) {
 	}
 	meta.Evaluations += evals
 	meta.Distribution["caseorder_observations"] = evals
+}
+
+// ---------------------------------------------------------------- nilValReturn
+
+type nvrCase struct {
+	fn, cond, x, y, op string
+	rets               []string
+	extra              bool // a second statement in the if body
+	msgs               []string
+}
+
+func runNilValReturn(meta *common.Meta, seed int64, outDir string) {
+	r := common.NewRand(seed, "c12-nilvalreturn")
+	pick := func(xs ...string) string { return xs[r.Intn(len(xs))] }
+	var cases []*nvrCase
+	seen := map[string]bool{}
+	for tries := 0; tries < 2000 && len(cases) < 120; tries++ {
+		c := &nvrCase{}
+		c.x = pick("xs", "xs", "fxs()", "xs[:]", "(xs)", "xs", "bs")
+		c.op = pick("==", "==", "==", "!=")
+		c.y = "nil"
+		ret := pick(c.x, c.x, "xs", "nil", "fxs()", "xs[:]")
+		if c.x == "bs" || ret == "bs" {
+			c.x, ret = "xs", "xs"
+		}
+		c.cond = c.x + " " + c.op + " " + c.y
+		if r.Intn(8) == 0 {
+			c.cond = c.y + " " + c.op + " " + c.x
+			c.x, c.y = c.y, c.x
+		}
+		c.rets = []string{ret}
+		if r.Intn(3) == 0 {
+			c.rets = append(c.rets, pick("false", "k", "a > b"))
+		}
+		c.extra = r.Intn(8) == 0
+		key := fmt.Sprint(c.cond, c.rets, c.extra)
+		if seen[key] {
+			continue
+		}
+		seen[key] = true
+		c.fn = fmt.Sprintf("n%d", len(cases))
+		cases = append(cases, c)
+	}
+	var src strings.Builder
+	src.WriteString(lintHeader + exprgen.LintPreamble)
+	for _, c := range cases {
+		resT, final := "[]int", "nil"
+		if len(c.rets) == 2 {
+			resT, final = "([]int, bool)", "nil, true"
+		}
+		extra := ""
+		if c.extra {
+			extra = "a++; "
+		}
+		fmt.Fprintf(&src, "func %s(%s) %s {\n\tif %s {\n\t\t%sreturn %s\n\t}\n\treturn %s\n}\n", c.fn, exprgen.Params, resT, c.cond, extra, strings.Join(c.rets, ", "), final)
+	}
+	l, err := exprgen.Load("p.go", src.String())
+	if err != nil {
+		panic(err)
+	}
+	ws, err := l.Run("nilValReturn")
+	if err != nil {
+		panic(err)
+	}
+	byFn := map[string]*nvrCase{}
+	for _, c := range cases {
+		byFn[c.fn] = c
+	}
+	for _, w := range ws {
+		if c := byFn[l.FuncOf(w.Pos)]; c != nil {
+			c.msgs = append(c.msgs, strings.ReplaceAll(w.Text, " ", ""))
+		}
+	}
+	conv := exprgen.NewConv(l.Info, l.File)
+	var bodies, idx []string
+	var dcs []*exprgen.DiffCase
+	rg := common.NewRand(seed, "c12-nvr-grid")
+	nflag := 0
+	for _, d := range l.File.Decls {
+		fd, ok := d.(*ast.FuncDecl)
+		if !ok || byFn[fd.Name.Name] == nil {
+			continue
+		}
+		c := byFn[fd.Name.Name]
+		ifs := fd.Body.List[0].(*ast.IfStmt)
+		cond := ifs.Cond.(*ast.BinaryExpr)
+		xt, err := conv.Expr(cond.X)
+		if err != nil {
+			continue // the left operand is `nil`: outside the fragment, the checker's qualifiedName test fails on the other side
+		}
+		single := len(ifs.Body.List) == 1
+		var results []string
+		if rs, ok := ifs.Body.List[len(ifs.Body.List)-1].(*ast.ReturnStmt); ok {
+			for _, e := range rs.Results {
+				if t, err := conv.Expr(e); err == nil {
+					results = append(results, "Some "+t)
+				} else {
+					results = append(results, "None")
+				}
+			}
+		}
+		if _, isRet := ifs.Body.List[0].(*ast.ReturnStmt); !isRet {
+			single = false
+		}
+		yNil := false
+		if id, ok := cond.Y.(*ast.Ident); ok && id.Name == "nil" {
+			yNil = true
+		}
+		bodies = append(bodies, fmt.Sprintf("({| nvr_single_return := %v; nvr_op_is_eq := %v; nvr_y_is_nil := %v; nvr_x := %s; nvr_results := [%s] |}, %s)",
+			single, cond.Op == token.EQL, yNil, xt, strings.Join(results, "; "), coqfmt.StrList(c.msgs)))
+		idx = append(idx, fmt.Sprintf("if %s { return %v } extra=%v => %q", c.cond, c.rets, c.extra, c.msgs))
+		if len(c.msgs) > 0 {
+			nflag++
+			text := "func() bool { if " + c.cond + " { return (" + l.Text(cond.X) + ") == nil }; return true }()"
+			dcs = append(dcs, &exprgen.DiffCase{ID: len(dcs), Kind: "expr", Orig: text, Expect: "true", Inputs: exprgen.Grid(rg, text, 40), Tag: c})
+		}
+	}
+	common.WriteFile(filepath.Join(outDir, "cases_c12_nilvalreturn.v"),
+		"From GC Require Import Base Model_Expr Model_BoolSimp Model_Claims.\n"+
+			"Definition case_ok (c : nvr_shape * list string) : bool := list_eqb String.eqb (map strip_spaces (nil_val_return_msgs (fst c))) (snd c).\n"+
+			"Definition cases : list (nvr_shape * list string) := [\n"+strings.Join(bodies, ";\n")+"\n].\nDefinition M := Eval vm_compute in mismatches case_ok cases.\nPrint M.\n")
+	common.WriteFile(filepath.Join(outDir, "cases_c12_nilvalreturn.index.txt"), strings.Join(idx, "\n")+"\n")
+	meta.CaseFiles = append(meta.CaseFiles, "cases_c12_nilvalreturn.v")
+	meta.Evaluations += len(bodies)
+	meta.Distinct += nflag
+	meta.Distribution["nilvalreturn_cases"] = len(bodies)
+	meta.Distribution["nilvalreturn_flagged"] = nflag
+	mm, evals, err := exprgen.RunDiff(filepath.Join(outDir, "obs_nvr"), dcs)
+	if err != nil {
+		panic(err)
+	}
+	meta.Evaluations += evals
+	for _, m := range mm {
+		c := m.Case.Tag.(*nvrCase)
+		meta.Fail("C12/nilValReturn/unclassified", fmt.Sprintf("nilValReturn claims the returned %s is nil inside `if %s`, observed %s", c.x, c.cond, m.Orig),
+			map[string]interface{}{"cond": c.cond, "input": m.Input, "observed": m.Orig})
+	}
 }
